@@ -186,6 +186,50 @@ Definition rule_elide_g (target : val) (p : prog) : option prog :=
   | _ => None
   end.
 
+(* ---- the decidable hypotheses of the rule theorems (Proofs/AccRulesProofs.v) ----------------------- *)
+Definition merge_hyp (G : list val) (fresh : list val) (target : val) (p : prog) : bool :=
+  match hd_fresh fresh with
+  | Some o' =>
+      match ctx_prog (merge_g_here o' target) p with
+      | Some q => gok_prog G p && gok_prog G q && negb (mem_nat target (prog_binds q))
+                  && isg G target && isg G o'
+      | None => false
+      end
+  | None => false
+  end.
+
+Definition hoist_hyp (G : list val) (fresh : list val) (target : val) (p : prog) : bool :=
+  match fresh, setup_in_of target p with
+  | o1 :: o2 :: _, Some r =>
+      match ctx_prog (hoist_g_here G o1 o2 target) p with
+      | Some q => gok_prog G p && gok_prog G q && negb (mem_nat target (prog_binds q))
+                  && isg G target && isg G r
+      | None => false
+      end
+  | _, _ => false
+  end.
+
+Definition elide_hyp (G : list val) (target : val) (p : prog) : bool :=
+  gok_prog G (drop_prog target p) && negb (mem_nat target (prog_binds (drop_prog target p)))
+  && isg G target
+  && match setup_in_of target p with Some i => isg G i | None => false end.
+
+(* SimplifyRedundantSetupCalls in the same style *)
+Definition rule_simplify_g (T : val -> astate) (fresh : list val) (target : val) (p : prog) : option prog :=
+  match hd_fresh fresh with
+  | Some o' => Some (ren_prog (rn target o') (simp_prog (Nat.eqb target) T p))
+  | None => None
+  end.
+
+Definition simplify_hyp (T : val -> astate) (fresh : list val) (target : val) (p : prog) : bool :=
+  match hd_fresh fresh with
+  | Some o' =>
+      let q := simp_prog (Nat.eqb target) T p in
+      wf_prog T p && block_fields_nodup (p_body p)
+      && negb (mem_nat target (prog_binds q)) && negb (mem_nat o' (prog_binds q))
+  | None => false
+  end.
+
 (* ---- L1 certificates: the guarded rule fires, gives the real result, and the decidable
         hypotheses of its theorem hold ------------------------------------------------------------ *)
 Definition eq_opt (o : option prog) (after : prog) : bool :=
@@ -193,33 +237,15 @@ Definition eq_opt (o : option prog) (after : prog) : bool :=
 
 Definition merge_cert (fresh : list val) (target : val) (before after : prog) : bool :=
   let G := prog_ghosts before ++ fresh in
-  match hd_fresh fresh with
-  | Some o' =>
-      eq_opt (rule_merge_g fresh target before) after
-      && match ctx_prog (merge_g_here o' target) before with
-         | Some q => gok_prog G q && gok_prog G before && negb (mem_nat target (prog_binds q))
-                     && isg G target && isg G o'
-         | None => false
-         end
-  | None => false
-  end.
+  eq_opt (rule_merge_g fresh target before) after && merge_hyp G fresh target before.
 
 Definition hoist_cert (fresh : list val) (target : val) (before after : prog) : bool :=
   let G := prog_ghosts before ++ fresh in
-  match fresh, setup_in_of target before with
-  | o1 :: o2 :: _, Some r =>
-      eq_opt (rule_hoist_g G fresh target before) after
-      && match ctx_prog (hoist_g_here G o1 o2 target) before with
-         | Some q => gok_prog G q && gok_prog G before && negb (mem_nat target (prog_binds q))
-                     && isg G target && isg G r
-         | None => false
-         end
-  | _, _ => false
-  end.
+  eq_opt (rule_hoist_g G fresh target before) after && hoist_hyp G fresh target before.
 
 Definition elide_g_cert (target : val) (before after : prog) : bool :=
   let G := prog_ghosts before in
-  eq_opt (rule_elide_g target before) after
-  && gok_prog G (drop_prog target before) && negb (mem_nat target (prog_binds (drop_prog target before)))
-  && isg G target
-  && match setup_in_of target before with Some i => isg G i | None => false end.
+  eq_opt (rule_elide_g target before) after && elide_hyp G target before.
+
+Definition simplify_g_cert (T : tbl) (fresh : list val) (target : val) (before after : prog) : bool :=
+  eq_opt (rule_simplify_g (tfun T) fresh target before) after && simplify_hyp (tfun T) fresh target before.
